@@ -162,16 +162,19 @@ impl Family for Determinism {
         300
     }
     fn rule(&self) -> &'static str {
-        "projects = 8 corpus projects + 6 generated + 4 ill-typed variants + 2 projects with several diagnostics / several impls + 74 single-file corpus programs + one project per import DAG on 5 packages in which Main reaches every package (10 possible edges; <= 4 edges, plus the 5-edge ones in one naming, in quick; all in thorough) x 2 directory namings (alphabetical order agreeing with / opposing the topological order) x {well-typed, every leaf ill-typed, every leaf declaring a wrong package name}; for each: hash seeds 0..15 (quick) / 0..127 (thorough) (DAG projects: 0..7 / 0..31) x 2 file creation orders x {whole-program compile, separate build+link through files} in this process, plus a second process for seeds 0 and 1, plus 4 spellings of the entry path (bare file name and ./ from inside the project directory, dir/main.gom from its parent, ../dir/main.gom); observables: Go text, Core/Mono/Lift/ANF dumps, ordered diagnostics, .interface/.core JSON (incl. interface hashes); oracle: byte-identical to the seed-0 baseline. Non-vacuity: the number of distinct package discovery orders produced by the seeds is measured per project. non-trivial = projects for which the seeds produced more than one iteration order of a seeded set of its package names (measured); distinct = distinct (project, seed, order)"
+        "projects = 8 corpus projects + 6 generated + 4 ill-typed variants + 2 projects with several diagnostics / several impls + 74 single-file corpus programs + one project per import DAG on 5 packages in which Main reaches every package (10 possible edges; <= 4 edges, plus the 5-edge ones in one naming, in quick; all in thorough) x 2 directory namings (alphabetical order agreeing with / opposing the topological order) x {well-typed, every leaf ill-typed, every leaf declaring a wrong package name}; for each: hash seeds 0..15 (quick) / 0..127 (thorough) (DAG projects: 0..7 / 0..31) x 2 file creation orders x {whole-program compile, separate build+link through files} in this process, plus a second process for seeds 0 and 1, plus 4 spellings of the entry path (bare file name and ./ from inside the project directory, dir/main.gom from its parent, ../dir/main.gom); first an audit that every std hash collection of the compiler crate is imported through the seeded seam and that no clock / random / environment / thread source appeared; observables: Go text, Core/Mono/Lift/ANF dumps, ordered diagnostics, .interface/.core JSON (incl. interface hashes); oracle: byte-identical to the seed-0 baseline. Non-vacuity: the number of distinct package discovery orders produced by the seeds is measured per project. non-trivial = projects for which the seeds produced more than one iteration order of a seeded set of its package names (measured); distinct = distinct (project, seed, order)"
     }
     fn cases(&self, tier: Tier) -> Box<dyn Iterator<Item = Value> + '_> {
         let nf = n_fixed();
         let specs = dag_specs();
         let dag: Vec<usize> = specs.iter().enumerate().filter(|(_, sp)| dag_in_tier(sp, tier == Tier::Quick)).map(|(i, _)| nf + i).collect();
-        Box::new((0..nf).chain(dag.into_iter()).map(|i| json!({"project": i})))
+        Box::new(std::iter::once(json!({"kind": "seam-audit"})).chain((0..nf).chain(dag.into_iter()).map(|i| json!({"project": i}))))
     }
     fn run(&self, case: &Value, ctx: &mut Ctx) -> Report {
         let mut rep = Report::default();
+        if case["kind"] == "seam-audit" {
+            return seam_audit();
+        }
         if !set_seed(0) {
             rep.tag("machinery:hash-seam-not-compiled-in");
             return rep;
@@ -335,4 +338,71 @@ fn fnv(s: &str) -> u64 {
         h = h.wrapping_mul(0x100000001b3);
     }
     h
+}
+
+/// Does the hash seam still own every hash collection of the compiler crate? Every `use` of
+/// std's HashMap / HashSet must be the `cfg(not(goml_verif))` half of a guarded pair, and no other
+/// source of run-to-run variation (clock, random state, environment, threads) may have appeared.
+/// This is an audit of the harness's own assumption, reported as tags (and a finding only for a
+/// hash collection that bypasses the seam, because the seed enumeration cannot reach it).
+fn seam_audit() -> Report {
+    let mut rep = Report::default();
+    let mut files = Vec::new();
+    fn walk(d: &std::path::Path, out: &mut Vec<std::path::PathBuf>) {
+        if let Ok(rd) = std::fs::read_dir(d) {
+            let mut es: Vec<_> = rd.filter_map(|e| e.ok()).map(|e| e.path()).collect();
+            es.sort();
+            for p in es {
+                if p.is_dir() {
+                    if p.file_name().map(|n| n != "tests").unwrap_or(true) {
+                        walk(&p, out);
+                    }
+                } else if p.extension().map(|e| e == "rs").unwrap_or(false) {
+                    out.push(p);
+                }
+            }
+        }
+    }
+    walk(std::path::Path::new("/repo/crates/compiler/src"), &mut files);
+    let mut guarded = 0u64;
+    let mut unguarded: Vec<String> = Vec::new();
+    let mut other: Vec<String> = Vec::new();
+    for f in &files {
+        if f.ends_with("verif_hash.rs") {
+            continue;
+        }
+        let text = std::fs::read_to_string(f).unwrap_or_default();
+        let lines: Vec<&str> = text.lines().collect();
+        for (i, l) in lines.iter().enumerate() {
+            let code = l.split("//").next().unwrap_or("");
+            if code.contains("std::collections::") && (code.contains("HashMap") || code.contains("HashSet")) {
+                let prev = if i > 0 { lines[i - 1].trim() } else { "" };
+                if code.trim_start().starts_with("use ") && prev == "#[cfg(not(goml_verif))]" {
+                    guarded += 1;
+                } else {
+                    unguarded.push(format!("{}:{}", f.strip_prefix("/repo/").unwrap_or(f).display(), i + 1));
+                }
+            }
+            for needle in ["RandomState", "SystemTime", "Instant::now", "thread_rng", "std::env::var", "thread::spawn", "DefaultHasher"] {
+                if code.contains(needle) {
+                    other.push(format!("{}:{}:{}", f.strip_prefix("/repo/").unwrap_or(f).display(), i + 1, needle));
+                }
+            }
+        }
+    }
+    rep.tag(format!("seam:guarded-imports:{}", guarded));
+    rep.tag(format!("seam:unguarded-hash-uses:{}", unguarded.len()));
+    rep.tag(format!("seam:other-nondeterminism-sources:{}", other.len()));
+    for u in &unguarded {
+        rep.findings.push(Finding {
+            property: "C13",
+            class: "seam.unseeded-hash-collection".into(),
+            site: format!("at={}", u.split(':').next().unwrap_or("")),
+            detail: format!("{} uses a std hash collection that does not go through the seeded seam: the hash-seed enumeration does not cover its iteration order", u),
+            replay: json!({"kind": "seam-audit", "location": u}),
+        });
+    }
+    rep.outcome = Some(format!("seam-audit:{}:{}:{}", guarded, unguarded.len(), other.len()));
+    rep.sample = Some(json!({"files_scanned": files.len(), "guarded_imports": guarded, "unguarded": unguarded, "other_sources": other}));
+    rep
 }
